@@ -8,6 +8,7 @@ homomorphism laws on random sequences; acceptance model for user alphabets
 (several different ones on the same live object); rejection of other sizes."""
 from .. import gen
 from .. import refmodel as M
+from .. import salt as SALT
 
 ID = "C12"
 LEVEL = "exploration"
@@ -156,6 +157,8 @@ def judge_user(case, rep, S):
     seq = case["s"]
     rng = gen.sub_rng(case["o"], ID)
     obj = S["SP"](seq)
+    if rng.random() < 0.2:
+        SALT.salt(S, obj, seq, rng, rep)
     prev_valid = False
     for step in range(4):
         images = rng.sample(list(M.AA), rng.randint(1, 6))
